@@ -263,16 +263,16 @@ def run(ctx):
     # ---------------- R7 what pgcat builds for a server is well framed
     r7 = ctx.rule("C11-R7", "a message that pgcat re-encodes for a server announces the length it has: the length field written by an encoder reachable from the client path is computed from the lengths of what is written, "
                   "not from a count field supplied by the client (a mis-framed message makes the server close the connection, which pgcat answers by banning the replica)", floor=3)
-    reach_client = F.reachable_fns(["pgcat::client::client_entrypoint"])
+    reach_client = F.reachable_fns(["pgcat::client::client_entrypoint", "pgcat::client::client_entrypoint::{closure#0}"])
     n_enc = 0
     for n_, b_ in F.bodies.items():
         m_ = re.match(r"^pgcat::messages::<impl core::convert::TryFrom<(&?)pgcat::messages::(\w+)> for bytes::bytes_mut::BytesMut>::try_from$", n_)
         if not m_ or m_.group(1) == "&":
             continue
         msgn = m_.group(2)
-        # conversions go through core's blanket TryInto, which the call graph does not see into: look for the conversion calls by their type arguments
-        conv = [c for c in F.all_calls("re:TryInto<.*>::try_into$|TryFrom<.*>::try_from$") if c.body.name in reach_client and any(("pgcat::messages::" + msgn) in t for t in c.targs) and any("BytesMut" in t for t in c.targs)]
-        if not conv:
+        # (conversions go through core's blanket TryInto; the call graph resolves them by the type arguments of the call - direction included: decoding a
+        # message does not make its encoder reachable)
+        if n_ not in reach_client:
             r7.note("encoder of %s is not reachable from client_entrypoint (not examined)" % msgn)
             continue
         adt = F.adts.get("pgcat::messages::" + msgn)
